@@ -4,33 +4,62 @@
    In a pure model independence of runs is true by construction.  This model therefore carries
    the process state explicitly: [proc] is the record of every location that outlives a run,
    as found in the code (and as audited on every check run by harness/c19.py, which walks all
-   snowfakery.* module objects before and after each run and reports any changed location that
-   is not listed here):
+   snowfakery.* module objects AND classes, the context variables, curated third-party state and
+   the process-level locations before and after each run and reports any changed location that
+   is not listed here).  The components, and what a run may do to each:
 
      p_uid      snowfakery/standard_plugins/UniqueId.py:118
                   UniqueNumericIdGenerator.context_uniqifier = count(1)      (class attribute)
+                  MONOTONE: read and advanced when a generator is created; never goes down.
      p_dates    snowfakery/template_funcs.py:52   @lru_cache(maxsize=512) parse_date
      p_dts      snowfakery/template_funcs.py:73   @lru_cache(maxsize=512) _parse_datetimespec
                   (since fix fc3a5e8 the uncached wrapper parse_datetimespec answers the keys "now"
                   and "today" - and since bfa3786 Faker's relative specs -30d, +1y, -1w+2h ... -
                   from the clock and never hands them to the cache)
+                  MEMO: every entry equals what the wrapped function returns for the key.
      p_masks    snowfakery/utils/scrambled_numbers.py:7,12  @lru_cache() randomizer / mask_for_key
-                  (memo tables of pure functions of their arguments; only their growth is modelled)
+                  MEMO of pure functions of their arguments; only their growth is modelled.
      p_rowhist  snowfakery/object_rows.py:13  RowHistoryCV = ContextVar("RowHistory"), set by
                   Interpreter.execute (data_generator_runtime.py:389), read by
                   LazyLoadedObjectReference.__getattr__ (object_rows.py:92)
+                  OVERWRITTEN before it is read.
+     p_cwd      os.getcwd(): changed by `with chdir(<directory of the recipe>)` around the opening of a
+                  dataset (standard_plugins/datasets.py:264-275, FileDataset._load_dataset :207) and
+                  read by every relative path (dataset files of stream recipes, ./plugins)
+                  RESTORED on every exit path of the with-block (try/finally).
+     p_path     sys.path (the entries beyond those the process started with): replaced for the
+                  duration of every parse by plugins.py:207 plugin_path = mock.patch.object(sys,
+                  "path", [*sys.path, <recipe dir>/plugins, "./plugins", ~/.snowfakery/plugins])
+                  RESTORED on every exit path (patch.__exit__).
+     p_home     os.environ: HOME is read by plugin_path through Path.home(); NEVER WRITTEN.
+     p_modules  sys.modules: the local plugin modules imported so far.  Python's import cache,
+                  GROWS ONLY; a recipe that names a local plugin reads it (the accepted limit of
+                  process-level isolation: such a recipe is excluded from the independence theorems
+                  unless the two processes imported the same modules).
+     p_app      the embedding application's SnowfakeryApplication object (api.py:46-117: rep_count,
+                  starting_id are per-run counters kept ON THE APPLICATION).  An application that
+                  makes a new object per run ([e_new_app] = true; generate_data does when none is
+                  passed) starts every run from (0, 0); an application that REUSES its object hands
+                  the counters of the previous run to the next one (finding C19-app-object-reused).
    The `plugin_options` dict an embedding application passes to every run is NOT process state any
    more: since fix d5304ed `generate` copies it (data_generator.py:152) before writing the recipe's
    snowfakery_version, so it is an input of the run ([e_app_ver]) that the harness checks to be
    unchanged afterwards.
 
-   Everything else (Globals, IdManager, Transients, Interpreter.instance_states, plugin
-   instances, StandardFuncs.Functions()._uidgen, the ParseResult with SimpleValue._evaluator,
-   the Jinja environments, RowHistory) is created by `generate` for one run: [rstate].
+   Everything else (Globals, IdManager incl. start_ids, Transients, Interpreter.instance_states,
+   plugin instances, StandardFuncs.Functions()._uidgen, the ParseResult with
+   SimpleValue._evaluator, the Jinja environments, RowHistory) is created by `generate` for one
+   run: [rstate].  A CONTINUED run builds its IdManager from the continuation file
+   (data_generator.py:168-174 load_continuation_yaml -> hydrate(Globals) -> hydrate(IdManager),
+   data_generator_runtime.py:71-73 __setstate__: last_used_ids from the file, start_ids = last + 1):
+   the file is an input of the run ([r_cont]), not process state.
 
-   The recipe side is abstract: a recipe is the list of operations its evaluation performs (all
-   iterations unrolled).  Clock readings and the results of date parsing are never computed:
-   the clock is an input of the run ([env]), dateutil is a Section variable. *)
+   The recipe side is abstract: a recipe is the list of operations ONE iteration performs; the
+   model runs the loop of Interpreter.loop_over_templates_until_finished itself, with the
+   stopping criterion of the application ([r_crit]: iterations or `target_number`).  Clock
+   readings, the results of date parsing, the files and the plugin modules on disk are never
+   computed: the clock is an input of the run ([env]); dateutil, the file system and the import
+   system are Section variables. *)
 From SFV Require Import Base.
 
 Definition key := string.
@@ -70,16 +99,27 @@ Definition date_cache_size : nat := 512.
 
 (* ---------------------------------------------------------------- process and run state *)
 
+(* SnowfakeryApplication.rep_count, .starting_id *)
+Record appst := mkApp { a_reps : Z; a_start : Z }.
+Definition app0 : appst := mkApp 0 0.
+
 Record proc := mkProc {
   p_uid : Z;                              (* value the next next(context_uniqifier) returns *)
   p_dates : lru;
   p_dts : lru;
   p_masks : Z;                            (* calls that went through the memoised mask function *)
-  p_rowhist : option (list (string * Z))  (* rows saved in the RowHistory the ContextVar holds *)
+  p_rowhist : option (list (string * Z)); (* rows saved in the RowHistory the ContextVar holds *)
+  p_cwd : string;                         (* os.getcwd() *)
+  p_path : list string;                   (* sys.path beyond the entries the process started with *)
+  p_home : string;                        (* os.environ["HOME"] *)
+  p_modules : list string;                (* local plugin modules in sys.modules *)
+  p_app : appst                           (* the application object of the latest run *)
 }.
 
-(* a process that has imported snowfakery and run nothing *)
-Definition proc0 : proc := mkProc 1 lru_empty lru_empty 0 None.
+(* a process that has imported snowfakery and run nothing, started in directory [cwd] *)
+Definition proc_init (cwd home : string) : proc :=
+  mkProc 1 lru_empty lru_empty 0 None cwd [] home [] app0.
+Definition proc0 : proc := proc_init "work" "~".
 
 Inductive gslot :=
 | SlotNum            (* ${{unique_id}}            : StandardFuncs.Functions()._uidgen.default_uniqifier *)
@@ -94,10 +134,22 @@ Definition first_index (g : gslot) : Z := match g with SlotAlpha => 1001 | _ => 
 
 Record rstate := mkRs {
   rs_ids : list (string * Z);             (* IdManager.last_used_ids *)
-  rs_states : list (string * Z);          (* Interpreter.instance_states: next value of a memoised counter *)
-  rs_gens : list (gslot * (Z * Z))        (* generators made in this run: (context, next index) *)
+  rs_states : list (string * Z);          (* Interpreter.instance_states: next value of a memoised counter,
+                                             or a mark that the site's memoised object exists *)
+  rs_gens : list (gslot * (Z * Z));       (* generators made in this run: (context, next index) *)
+  rs_start : list (string * Z)            (* IdManager.start_ids: first id of this run, continued runs only *)
 }.
-Definition rs0 : rstate := mkRs [] [] [].
+Definition rs0 : rstate := mkRs [] [] [] [].
+
+(* hydrate(IdManager, state) -> __setstate__ (data_generator_runtime.py:71-73):
+     last_used_ids = defaultdict(lambda: 0, state["last_used_ids"])
+     start_ids = {name: val + 1 for name, val in last_used_ids.items()}
+   a fresh run: IdManager() with both empty *)
+Definition init_rstate (cont : option (list (string * Z))) : rstate :=
+  match cont with
+  | None => rs0
+  | Some ids => mkRs ids [] [] (map (fun kv => (fst kv, snd kv + 1)) ids)
+  end.
 
 Fixpoint gen_find (g : gslot) (l : list (gslot * (Z * Z))) : option (Z * Z) :=
   match l with
@@ -120,6 +172,9 @@ Fixpoint assoc_set (k : key) (v : Z) (l : list (key * Z)) : list (key * Z) :=
 Definition last_id (t : string) (s : rstate) : Z :=
   match assoc_find t (rs_ids s) with Some v => v | None => 0 end.   (* defaultdict(lambda: 0) *)
 
+Definition start_id (t : string) (s : rstate) : Z :=
+  match assoc_find t (rs_start s) with Some v => v | None => 1 end.     (* start_ids.get(t, 1) *)
+
 (* ---------------------------------------------------------------- recipes, runs *)
 
 Inductive op :=
@@ -131,26 +186,57 @@ Inductive op :=
                                             directly, the others through the _parse_datetimespec cache *)
 | OLazy (table : string)                 (* attribute of a random_reference result: RowHistoryCV.get().load_row *)
 | OVersion                               (* a value whose rendering depends on native-types mode *)
-| OFail (e : err).                       (* evaluation raises *)
+| OFail (e : err)                        (* evaluation raises *)
+| OFailAt (table : string) (n : Z)       (* a formula that raises in the row whose id is n: 1 // (n - id) *)
+| ODateOnce (site : string) (k : key)    (* Counters.DateCounter: parse_date(start_date) when the memoised
+                                            counter of this site is created, nothing afterwards *)
+| ODataset (site : string) (file : string). (* Dataset.iterate / shuffle with a relative path: the file is
+                                            opened inside `with chdir(<recipe dir>)` when the memoised
+                                            iterator of this site is created *)
 
 Inductive stage :=
 | SParseFail        (* parse_recipe raises: nothing else happens                      *)
 | SInitFail         (* raises after the options were merged, before Interpreter.execute *)
 | SExec.            (* Interpreter.execute is reached                                 *)
 
+(* SnowfakeryApplication.stopping_criteria: StoppingCriteria(COUNT_REPS, n) | (tablename, n) *)
+Inductive criterion :=
+| CReps (n : Z)
+| CTable (t : string) (n : Z).
+
+Definition crit_n (c : criterion) : Z := match c with CReps n => n | CTable _ n => n end.
+
+(* one job: the recipe and the parameters of the run that are not process state *)
 Record recipe := mkRecipe {
   r_stage : stage;
   r_version : option Z;         (* `- snowfakery_version: n` *)
-  r_ops : list op
+  r_ops : list op;              (* the operations of ONE iteration over the templates *)
+  r_crit : criterion;           (* when to stop iterating *)
+  r_cont : option (list (string * Z));  (* continuation file: id_manager.last_used_ids (None: a fresh run) *)
+  r_tables : list string;       (* the tables the recipe declares (ParseResult.tables) *)
+  r_dir : option string;        (* directory of the recipe FILE; None: a stream, whose directory is "." *)
+  r_plugins : list string       (* local plugin modules named by `- plugin:` lines *)
 }.
+
+(* a fresh run of one iteration of a stream recipe without local plugins *)
+Definition simple_recipe (st : stage) (ver : option Z) (ops : list op) : recipe :=
+  mkRecipe st ver ops (CReps 1) None [] None [].
 
 (* inputs of one run that are not the recipe *)
 Record env := mkEnv {
   e_now : Z;                    (* clock: datetime.now() during this run (the harness only locates a
                                    value in the time window of a run, so one reading per run suffices) *)
   e_today : Z;                  (* clock: date.today() during this run *)
-  e_app_ver : option Z          (* "snowfakery_version" entry of the plugin_options the application
+  e_app_ver : option Z;         (* "snowfakery_version" entry of the plugin_options the application
                                    passes (None: no dict, or a dict without that entry) *)
+  e_new_app : bool              (* the application makes a new SnowfakeryApplication object for this run
+                                   (false: it passes the object of its previous run again) *)
+}.
+
+(* what one iteration needs to know about the recipe it belongs to *)
+Record rctx := mkCtx {
+  c_ver : Z;                    (* effective snowfakery_version *)
+  c_dir : option string         (* r_dir *)
 }.
 
 Inductive obs :=
@@ -231,28 +317,59 @@ Section Run.
      do not read the clock: functions of the key; None = raises *)
   Variable parse_d : key -> option Z.
   Variable parse_dt : key -> option Z.
+  (* the file system as the dataset plugin sees it: opening [file] while the working directory is
+     [dir].  Ok v: the content; Err (DGE _): the with-block is left by a DataGenError; Err (Internal _):
+     by another exception (FileNotFoundError, AssertionError "extension must be .csv", ...) *)
+  Variable read_file : string -> string -> result Z.
+  (* the import system: is the local plugin module [m] in directory [dir]?  Err e: importing it raises e *)
+  Variable load_plugin : string -> string -> result bool.
 
   Definition set_dates (p : proc) (c : lru) : proc :=
-    mkProc (p_uid p) c (p_dts p) (p_masks p) (p_rowhist p).
+    mkProc (p_uid p) c (p_dts p) (p_masks p) (p_rowhist p) (p_cwd p) (p_path p) (p_home p) (p_modules p) (p_app p).
   Definition set_dts (p : proc) (c : lru) : proc :=
-    mkProc (p_uid p) (p_dates p) c (p_masks p) (p_rowhist p).
+    mkProc (p_uid p) (p_dates p) c (p_masks p) (p_rowhist p) (p_cwd p) (p_path p) (p_home p) (p_modules p) (p_app p).
   Definition set_rowhist (p : proc) (h : option (list (string * Z))) : proc :=
-    mkProc (p_uid p) (p_dates p) (p_dts p) (p_masks p) h.
+    mkProc (p_uid p) (p_dates p) (p_dts p) (p_masks p) h (p_cwd p) (p_path p) (p_home p) (p_modules p) (p_app p).
   Definition draw_context (p : proc) : proc :=
-    mkProc (p_uid p + 1) (p_dates p) (p_dts p) (p_masks p) (p_rowhist p).
+    mkProc (p_uid p + 1) (p_dates p) (p_dts p) (p_masks p) (p_rowhist p) (p_cwd p) (p_path p) (p_home p) (p_modules p) (p_app p).
   Definition touch_masks (p : proc) : proc :=
-    mkProc (p_uid p) (p_dates p) (p_dts p) (p_masks p + 1) (p_rowhist p).
+    mkProc (p_uid p) (p_dates p) (p_dts p) (p_masks p + 1) (p_rowhist p) (p_cwd p) (p_path p) (p_home p) (p_modules p) (p_app p).
+  Definition set_cwd (p : proc) (d : string) : proc :=
+    mkProc (p_uid p) (p_dates p) (p_dts p) (p_masks p) (p_rowhist p) d (p_path p) (p_home p) (p_modules p) (p_app p).
+  Definition set_path (p : proc) (l : list string) : proc :=
+    mkProc (p_uid p) (p_dates p) (p_dts p) (p_masks p) (p_rowhist p) (p_cwd p) l (p_home p) (p_modules p) (p_app p).
+  Definition add_module (p : proc) (m : string) : proc :=
+    mkProc (p_uid p) (p_dates p) (p_dts p) (p_masks p) (p_rowhist p) (p_cwd p) (p_path p) (p_home p)
+           (if existsb (String.eqb m) (p_modules p) then p_modules p else m :: p_modules p) (p_app p).
+  Definition set_app (p : proc) (a : appst) : proc :=
+    mkProc (p_uid p) (p_dates p) (p_dts p) (p_masks p) (p_rowhist p) (p_cwd p) (p_path p) (p_home p) (p_modules p) a.
 
   Definition dge : err := DGE "".
 
+  Definition set_state (s : rstate) (st : list (string * Z)) : rstate :=
+    mkRs (rs_ids s) st (rs_gens s) (rs_start s).
+
+  (* `with chdir(d): <open the file>` (datasets.py:264-275, a generator context manager WITH try/finally):
+         cwd = os.getcwd(); os.chdir(path); try: yield  finally: os.chdir(cwd)
+     [fin] = false is the same manager without try/finally (the working directory is put back only
+     when the block is left normally); the code as it is has [fin] = true. *)
+  Definition with_chdir (fin : bool) (d : string) (p : proc) (file : string) : proc * result Z :=
+    let saved := p_cwd p in
+    let p1 := set_cwd p d in
+    let r := read_file (p_cwd p1) file in
+    match r with
+    | Ok v => (set_cwd p1 saved, Ok v)
+    | Err er => (if fin then set_cwd p1 saved else p1, Err er)
+    end.
+
   (* one operation: new process state, and either the new run state with what was observed, or
      the exception *)
-  Definition step (e : env) (ver : Z) (p : proc) (s : rstate) (o : op)
+  Definition step (e : env) (cx : rctx) (p : proc) (s : rstate) (o : op)
     : proc * result (rstate * list obs) :=
     match o with
     | ORow t =>
       let id := last_id t s + 1 in
-      let s' := mkRs (assoc_set t id (rs_ids s)) (rs_states s) (rs_gens s) in
+      let s' := mkRs (assoc_set t id (rs_ids s)) (rs_states s) (rs_gens s) (rs_start s) in
       let p' := match p_rowhist p with
                 | Some h => set_rowhist p (Some ((t, id) :: h))
                 | None => p          (* unreachable from [run]: execute sets the variable first *)
@@ -260,17 +377,17 @@ Section Run.
       (p', Ok (s', [BId t id]))
     | OCounter n start stp =>
       let v := match assoc_find n (rs_states s) with Some v => v | None => start end in
-      (p, Ok (mkRs (rs_ids s) (assoc_set n (v + stp) (rs_states s)) (rs_gens s), [BCount n v]))
+      (p, Ok (set_state s (assoc_set n (v + stp) (rs_states s)), [BCount n v]))
     | OUid g =>
       match gen_find g (rs_gens s) with
       | Some (c, i) =>
         (touch_masks p,
-         Ok (mkRs (rs_ids s) (rs_states s) (gen_set g (c, i + 1) (rs_gens s)), [BUid g c i]))
+         Ok (mkRs (rs_ids s) (rs_states s) (gen_set g (c, i + 1) (rs_gens s)) (rs_start s), [BUid g c i]))
       | None =>
         let c := p_uid p in
         let i := first_index g in
         (touch_masks (draw_context p),
-         Ok (mkRs (rs_ids s) (rs_states s) (gen_set g (c, i + 1) (rs_gens s)), [BUid g c i]))
+         Ok (mkRs (rs_ids s) (rs_states s) (gen_set g (c, i + 1) (rs_gens s)) (rs_start s), [BUid g c i]))
       end
     | ODate k =>
       let '(c, r) := lru_call date_cache_size parse_d (p_dates p) k in
@@ -290,22 +407,85 @@ Section Run.
         if existsb (fun x => String.eqb (fst x) t) h then (p, Ok (s, [BLazy]))
         else (p, Err dge)                               (* "Something went wrong: we cannot find ..." *)
       end
-    | OVersion => (p, Ok (s, [BVersion ver]))
+    | OVersion => (p, Ok (s, [BVersion (c_ver cx)]))
     | OFail er => (p, Err er)
-    end.
-
-  Fixpoint exec_ops (e : env) (ver : Z) (p : proc) (s : rstate) (ops : list op)
-    : proc * outcome :=
-    match ops with
-    | [] => (p, mkOut [] None)
-    | o :: rest =>
-      match step e ver p s o with
-      | (p', Ok (s', b)) =>
-        let '(p'', out) := exec_ops e ver p' s' rest in
-        (p'', mkOut (b ++ o_obs out) (o_err out))
-      | (p', Err er) => (p', mkOut [] (Some er))
+    | OFailAt t n => if last_id t s =? n then (p, Err dge) else (p, Ok (s, []))
+    | ODateOnce site k =>
+      match assoc_find site (rs_states s) with
+      | Some _ => (p, Ok (s, []))
+      | None =>
+        let '(c, r) := lru_call date_cache_size parse_d (p_dates p) k in
+        (set_dates p c,
+         match r with
+         | Some v => Ok (set_state s (assoc_set site 0 (rs_states s)), [BVal v])
+         | None => Err dge
+         end)
+      end
+    | ODataset site file =>
+      match assoc_find site (rs_states s) with
+      | Some _ => (p, Ok (s, []))                        (* @memorable: the open iterator is reused *)
+      | None =>
+        (* rootpath = Path(template.filename).parent: the recipe's directory, "." for a stream *)
+        let d := match c_dir cx with Some d => d | None => p_cwd p end in
+        match with_chdir true d p file with
+        | (p', Ok v) => (p', Ok (set_state s (assoc_set site 0 (rs_states s)), [BVal v]))
+        | (p', Err _) => (p', Err dge)                   (* whatever was raised leaves generate as a DataGenError *)
+        end
       end
     end.
+
+  Fixpoint exec_ops (e : env) (cx : rctx) (p : proc) (s : rstate) (ops : list op)
+    : proc * rstate * outcome :=
+    match ops with
+    | [] => (p, s, mkOut [] None)
+    | o :: rest =>
+      match step e cx p s o with
+      | (p', Ok (s', b)) =>
+        let '(p'', s'', out) := exec_ops e cx p' s' rest in
+        (p'', s'', mkOut (b ++ o_obs out) (o_err out))
+      | (p', Err er) => (p', s, mkOut [] (Some er))
+      end
+    end.
+
+  (* RuntimeContext.check_if_finished (data_generator_runtime.py:567-576) at the end of an iteration:
+       app.ensure_progress_was_made(id_manager); return app.check_if_finished(id_manager)
+     api.py:78-117.  Result: the application object afterwards, and finished? / the exception. *)
+  Definition end_of_iteration (c : criterion) (s : rstate) (a : appst) : appst * result bool :=
+    match c with
+    | CReps n =>
+      (* stopping_tablename is None: ensure_progress_was_made returns at once *)
+      let r := a_reps a + 1 in
+      (mkApp r (a_start a), Ok (n <=? r))
+    | CTable t n =>
+      let last := last_id t s in
+      (* if self.rep_count == 0: self.starting_id = id_manager.start_ids.get(t, 1) - 1 *)
+      let st := if a_reps a =? 0 then start_id t s - 1 else a_start a in
+      if last =? st then (mkApp (a_reps a) st, Err (Internal "RuntimeError"))
+      else (mkApp (a_reps a + 1) last, Ok (start_id t s + n - 1 <=? last))
+    end.
+
+  (* Interpreter.loop_over_templates_until_finished *)
+  Fixpoint iterate (fuel : nat) (e : env) (cx : rctx) (c : criterion) (body : list op)
+                   (p : proc) (s : rstate) : proc * outcome :=
+    match fuel with
+    | O => (p, mkOut [] (Some OutOfFuel))
+    | S f =>
+      let '(p1, s1, out) := exec_ops e cx p s body in
+      match o_err out with
+      | Some _ => (p1, out)
+      | None =>
+        match end_of_iteration c s1 (p_app p1) with
+        | (a, Err er) => (set_app p1 a, mkOut (o_obs out) (Some er))
+        | (a, Ok true) => (set_app p1 a, out)
+        | (a, Ok false) =>
+          let '(p2, out2) := iterate f e cx c body (set_app p1 a) s1 in
+          (p2, mkOut (o_obs out ++ o_obs out2) (o_err out2))
+        end
+      end
+    end.
+
+  (* enough for every run that can end: C19_never_out_of_fuel *)
+  Definition iter_fuel (c : criterion) : nat := Z.to_nat (crit_n c) + 2.
 
   (* data_generator.py:152-156:  plugin_options = dict(plugin_options or {})   -- a copy
        if parse_result.version: plugin_options["snowfakery_version"] = parse_result.version
@@ -316,14 +496,85 @@ Section Run.
     | None => match e_app_ver e with Some v => v | None => 2 end
     end.
 
+  (* plugins.py:207-216 plugin_path: the search path while a file is parsed *)
+  Definition search_path (p : proc) (dir : option string) : list string :=
+    p_path p ++ [ String.append (match dir with Some d => d | None => p_cwd p end) "/plugins";
+                  String.append (p_cwd p) "/plugins";
+                  String.append (p_home p) "/.snowfakery/plugins" ].
+
+  (* import_module(m) with sys.path = [sp]: sys.modules first, then the directories in order *)
+  Fixpoint find_on_path (sp : list string) (m : string) : result bool :=
+    match sp with
+    | [] => Ok false
+    | d :: rest =>
+      match load_plugin d m with
+      | Ok true => Ok true
+      | Ok false => find_on_path rest m
+      | Err er => Err er
+      end
+    end.
+
+  Fixpoint resolve_all (p : proc) (ms : list string) : proc * result unit :=
+    match ms with
+    | [] => (p, Ok tt)
+    | m :: rest =>
+      if existsb (String.eqb m) (p_modules p) then resolve_all p rest
+      else
+        match find_on_path (p_path p) m with
+        | Ok true => resolve_all (add_module p m) rest
+        | Ok false => (p, Err dge)               (* DataGenImportError: Cannot find plugin *)
+        | Err er => (p, Err er)                  (* the module raises while it is imported *)
+        end
+    end.
+
+  (* resolve_plugins: `with plugin_path(search_paths): ...` - mock.patch.object(sys, "path", new):
+     __exit__ puts the saved list back however the block is left.  [fin] = false: a hand-written
+     generator context manager without try/finally *)
+  Definition with_plugin_path (fin : bool) (p : proc) (r : recipe) : proc * result unit :=
+    let saved := p_path p in
+    let p1 := set_path p (search_path p (r_dir r)) in
+    match resolve_all p1 (r_plugins r) with
+    | (p2, Ok u) => (set_path p2 saved, Ok u)
+    | (p2, Err er) => (if fin then set_path p2 saved else p2, Err er)
+    end.
+
+  (* everything `generate` does before Interpreter.execute *)
+  Definition pre_execute (p : proc) (e : env) (r : recipe) : proc * result unit :=
+    let p0 := if e_new_app e then set_app p app0 else p in     (* SnowfakeryApplication(criteria) *)
+    match with_plugin_path true p0 r with
+    | (p1, Err er) => (p1, Err er)
+    | (p1, Ok _) =>
+      match r_stage r with
+      | SParseFail => (p1, Err dge)
+      | SInitFail => (p1, Err dge)
+      | SExec =>
+        (* Interpreter.__init__ (data_generator_runtime.py:341-345): the stop table must be declared *)
+        match r_crit r with
+        | CTable t _ => if existsb (String.eqb t) (r_tables r) then (p1, Ok tt) else (p1, Err dge)
+        | CReps _ => (p1, Ok tt)
+        end
+      end
+    end.
+
   (* snowfakery.data_generator.generate *)
   Definition run (p : proc) (e : env) (r : recipe) : proc * outcome :=
-    match r_stage r with
-    | SParseFail => (p, mkOut [] (Some dge))
-    | SInitFail => (p, mkOut [] (Some dge))
-    | SExec =>
-      let p2 := set_rowhist p (Some []) in      (* RowHistoryCV.set(self.row_history) *)
-      exec_ops e (effective_version e r) p2 rs0 (r_ops r)
+    match pre_execute p e r with
+    | (p1, Err er) => (p1, mkOut [] (Some er))
+    | (p1, Ok _) =>
+      let p2 := set_rowhist p1 (Some []) in      (* RowHistoryCV.set(self.row_history) *)
+      iterate (iter_fuel (r_crit r)) e (mkCtx (effective_version e r) (r_dir r)) (r_crit r) (r_ops r)
+              p2 (init_rstate (r_cont r))
+    end.
+
+  (* the same with another number of iterations allowed: C19_fuel_is_enough says that more than
+     [iter_fuel] never makes a difference *)
+  Definition run_with (fuel : nat) (p : proc) (e : env) (r : recipe) : proc * outcome :=
+    match pre_execute p e r with
+    | (p1, Err er) => (p1, mkOut [] (Some er))
+    | (p1, Ok _) =>
+      let p2 := set_rowhist p1 (Some []) in
+      iterate fuel e (mkCtx (effective_version e r) (r_dir r)) (r_crit r) (r_ops r)
+              p2 (init_rstate (r_cont r))
     end.
 
   (* runs executed back to back in one process *)
@@ -337,13 +588,15 @@ Section Run.
     end.
 
   (* the state of a process after a history of runs *)
-  Definition after (l : list (env * recipe)) : proc := fst (run_seq proc0 l).
+  Definition after_from (p0 : proc) (l : list (env * recipe)) : proc := fst (run_seq p0 l).
+  Definition after (l : list (env * recipe)) : proc := after_from proc0 l.
 End Run.
 
-(* The only operation whose observation depends on the process state a run starts in: a unique
-   id (its generator draws the process-wide context counter). *)
+(* The only operation whose observation depends on the unique-id counter a run starts with: a
+   unique id (its generator draws the process-wide context counter). *)
 Definition is_uid_op (o : op) : bool := match o with OUid _ => true | _ => false end.
 Definition no_uid (r : recipe) : bool := negb (existsb is_uid_op (r_ops r)).
+Definition no_plugins (r : recipe) : bool := match r_plugins r with [] => true | _ => false end.
 
 (* the unique-id draws among the observations: (generator slot, (context, index)) *)
 Fixpoint uid_obs (l : list obs) : list (gslot * (Z * Z)) :=
@@ -398,7 +651,12 @@ Record pview := mkView {
   v_dts_size : Z; v_dts_misses : Z;         (* _parse_datetimespec.cache_info() *)
   v_cv_set : bool;              (* RowHistoryCV has a value *)
   v_cv_changed : bool;          (* it holds another RowHistory object than before the run *)
-  v_app_ver : option Z          (* the application's dict after the run (None when no dict / no entry) *)
+  v_app_ver : option Z;         (* the application's dict after the run (None when no dict / no entry) *)
+  v_cwd : string;               (* os.getcwd() relative to the root of the case *)
+  v_path : list string;         (* sys.path entries beyond those of the process start *)
+  v_modules : list string;      (* the case's local plugin modules present in sys.modules *)
+  v_app : option (Z * Z)        (* rep_count, starting_id of the application object of this run
+                                   (None: the attributes are not there to be read) *)
 }.
 
 Record run_case := mkRunCase {
@@ -413,6 +671,10 @@ Record run_case := mkRunCase {
 
 Inductive case :=
 | CSeq (dtab dttab : list (key * option Z))  (* observed parse results per key (fresh processes) *)
+       (ftab : list (key * option Z))        (* files the harness put under the root: "dir/file" -> content
+                                                code, None: opening it raises; anything else does not exist *)
+       (ptab : list (key * bool))            (* plugin modules on disk: "dir/module" -> true, or false when
+                                                importing it raises ValueError *)
        (unmodelled : list string)            (* state-diff audit: changed locations outside [proc] *)
        (runs : list run_case).
 
@@ -421,7 +683,7 @@ Definition table_fun (tab : list (key * option Z)) (k : key) : option (option Z)
 
 Definition keys_known (tab_d tab_dt : list (key * option Z)) (r : recipe) : bool :=
   forallb (fun o => match o with
-                    | ODate k => match table_fun tab_d k with Some _ => true | None => false end
+                    | ODate k | ODateOnce _ k => match table_fun tab_d k with Some _ => true | None => false end
                     | ODatetime k => is_clock_key k ||
                                      match table_fun tab_dt k with Some _ => true | None => false end
                     | _ => true
@@ -429,6 +691,21 @@ Definition keys_known (tab_d tab_dt : list (key * option Z)) (r : recipe) : bool
 
 Definition flat_fun (tab : list (key * option Z)) (k : key) : option Z :=
   match assoc_find k tab with Some r => r | None => None end.
+
+(* the files of the case: a path that is not listed does not exist (FileNotFoundError) *)
+Definition file_fun (tab : list (key * option Z)) (dir file : string) : result Z :=
+  match assoc_find (String.append dir (String.append "/" file)) tab with
+  | Some (Some v) => Ok v
+  | Some None => Err (Internal "AssertionError")
+  | None => Err (Internal "FileNotFoundError")
+  end.
+
+Definition plugin_fun (tab : list (key * bool)) (dir m : string) : result bool :=
+  match assoc_find (String.append dir (String.append "/" m)) tab with
+  | Some true => Ok true
+  | Some false => Err (Internal "ValueError")
+  | None => Ok false
+  end.
 
 Definition err_opt_eqb (a b : option err) : bool :=
   match a, b with
@@ -439,6 +716,8 @@ Definition err_opt_eqb (a b : option err) : bool :=
 
 Definition zopt_eqb := option_eqb Z.eqb.
 
+Definition subset_str (a b : list string) : bool := forallb (fun x => existsb (String.eqb x) b) a.
+
 Definition view_ok (e : env) (after : proc) (v : pview) : bool :=
   (p_uid after =? v_uid v) &&
   (Z.of_nat (length (l_items (p_dates after))) =? v_dates_size v) &&
@@ -446,35 +725,49 @@ Definition view_ok (e : env) (after : proc) (v : pview) : bool :=
   (Z.of_nat (length (l_items (p_dts after))) =? v_dts_size v) &&
   (l_misses (p_dts after) =? v_dts_misses v) &&
   Bool.eqb (match p_rowhist after with Some _ => true | None => false end) (v_cv_set v) &&
-  zopt_eqb (e_app_ver e) (v_app_ver v).          (* the application's dict is left as it was *)
-
-Definition run_ok (parse_d parse_dt : key -> option Z) (p : proc) (rc : run_case) : proc * bool :=
-  let '(p', out) := run parse_d parse_dt p (rc_env rc) (rc_recipe rc) in
-  let reached := match r_stage (rc_recipe rc) with SExec => true | _ => false end in
-  (p',
-   view_ok (rc_env rc) p' (rc_view rc) && Bool.eqb reached (v_cv_changed (rc_view rc)) &&
-   (rc_opaque rc ||
-    (err_opt_eqb (o_err out) (rc_err rc) &&
-     match o_err out with
-     | None => list_eqb obs_eqb (rc_obs rc) (o_obs out)
-     | Some _ => prefix_eqb (rc_obs rc) (o_obs out)   (* the failing row is not delivered *)
-     end))).
-
-Fixpoint runs_ok (parse_d parse_dt : key -> option Z) (p : proc) (l : list run_case) : bool :=
-  match l with
-  | [] => true
-  | rc :: rest =>
-    let '(p', ok) := run_ok parse_d parse_dt p rc in
-    ok && runs_ok parse_d parse_dt p' rest
+  zopt_eqb (e_app_ver e) (v_app_ver v) &&        (* the application's dict is left as it was *)
+  String.eqb (p_cwd after) (v_cwd v) &&
+  list_eqb String.eqb (p_path after) (v_path v) &&
+  subset_str (p_modules after) (v_modules v) && subset_str (v_modules v) (p_modules after) &&
+  match v_app v with
+  | Some (reps, start) => (a_reps (p_app after) =? reps) && (a_start (p_app after) =? start)
+  | None => true
   end.
+
+Section Check.
+  Variable parse_d parse_dt : key -> option Z.
+  Variable read_file : string -> string -> result Z.
+  Variable load_plugin : string -> string -> result bool.
+
+  Definition run_ok (p : proc) (rc : run_case) : proc * bool :=
+    let '(p', out) := run parse_d parse_dt read_file load_plugin p (rc_env rc) (rc_recipe rc) in
+    let reached := match snd (pre_execute load_plugin p (rc_env rc) (rc_recipe rc)) with
+                   | Ok _ => true | Err _ => false end in
+    (p',
+     view_ok (rc_env rc) p' (rc_view rc) && Bool.eqb reached (v_cv_changed (rc_view rc)) &&
+     (rc_opaque rc ||
+      (err_opt_eqb (o_err out) (rc_err rc) &&
+       match o_err out with
+       | None => list_eqb obs_eqb (rc_obs rc) (o_obs out)
+       | Some _ => prefix_eqb (rc_obs rc) (o_obs out)   (* the failing row is not delivered *)
+       end))).
+
+  Fixpoint runs_ok (p : proc) (l : list run_case) : bool :=
+    match l with
+    | [] => true
+    | rc :: rest =>
+      let '(p', ok) := run_ok p rc in
+      ok && runs_ok p' rest
+    end.
+End Check.
 
 Definition check_case (c : case) : bool :=
   match c with
-  | CSeq dtab dttab unmodelled runs =>
+  | CSeq dtab dttab ftab ptab unmodelled runs =>
     match unmodelled with
     | [] =>
       forallb (fun rc => keys_known dtab dttab (rc_recipe rc)) runs &&
-      runs_ok (flat_fun dtab) (flat_fun dttab) proc0 runs
+      runs_ok (flat_fun dtab) (flat_fun dttab) (file_fun ftab) (plugin_fun ptab) proc0 runs
     | _ :: _ => false
     end
   end.
